@@ -58,7 +58,7 @@ def gen(rng, tier):
         k = rng.weighted([('apply', 55), ('search_apply', 35), ('perturb', 6), ('undo', 2), ('export_import', 2)])
         op = {'op': k, 's': s}
         if k == 'search_apply':
-            op.update({'g': rng.randrange(10000), 'nf': rng.pick([0, 0, 1, 1, 2]), 'f': rng.randrange(10000),
+            op.update({'g': rng.randrange(10000), 'nf': rng.pick([0, 0, 1, 1, 2, 2]), 'f': rng.randrange(10000),
                        'gap': rng.chance(0.3), 'd': rng.randrange(10000), 'dk': rng.pick(c13.DISTURB)})
         elif k == 'perturb':
             op.update({'kind': rng.pick(c13.PERTURB), 'a': rng.randrange(10000), 'b': rng.randrange(10000), 'keep': True})
@@ -120,6 +120,20 @@ class Runner14(c13.Runner):
             f = visible[-1 - ((op['f'] + i * 5) % min(len(visible), 4))]
             if str(f.id) not in facts:
                 facts.append(str(f.id))
+        rec0 = self.next_step(s)
+        if rec0 and len(rec0.get('fact_ids') or []) >= 2 and op['f'] % 10 < 7:
+            # the facts of the recorded step, selected in another order than the one that works: search tries
+            # every permutation and must hand back the one it used
+            try:
+                g2 = st.get_proof_item(ItemID(rec0['goal_id']))
+                if g2.rule == 'sorry' and all(st.get_proof_item(ItemID(f)).th is not None for f in rec0['fact_ids']):
+                    gid = ItemID(rec0['goal_id'])
+                    facts = list(rec0['fact_ids'])
+                    if op['f'] % 2 == 0:
+                        facts.reverse()
+                    ctr.inc('searches_with_recorded_facts_reordered')
+            except Exception:
+                pass
         d_before = core.state_digest(st)
         try:
             with c13.op_alarm(90):
@@ -144,6 +158,24 @@ class Runner14(c13.Runner):
         rec = self.next_step(s)
         for r in results:
             self.judge_suggestion(seq, s, st, gid, facts, r, rec, d_before)
+        if facts and len(gaps) >= 1 and op['g'] % 2 == 0:
+            # a second search in the same process, other goal, no facts selected: nothing of the first may leak
+            others = [it for it in gaps if str(it.id) != str(gid)] or gaps
+            gid2 = others[(op['g'] // 2) % len(others)].id
+            try:
+                with c13.op_alarm(90):
+                    results2 = st.search_method(str(gid2), [])
+            except c13.OpTimeout:
+                ctr.inc('op_timeout')
+                return
+            except Exception:
+                ctr.inc('probe_search_method_raised')
+                return
+            ctr.inc('searches')
+            ctr.inc('follow_up_searches_without_facts')
+            log.add(seq, 'search2', s.idx, str(gid2), len(results2))
+            for r in results2:
+                self.judge_suggestion(seq, s, st, gid2, [], r, rec, d_before)
 
     def judge_suggestion(self, seq, s, st, gid, facts, r, rec, d_before):
         from server import method
